@@ -57,6 +57,8 @@ class FlatBody(Body):
         self.inlined = inlined        # paths of the bodies that were inlined (at least once)
         self.envs = envs or []        # per block: generic parameter name -> closure def, in this inlining context
         self.is_flat = True
+        FlatBody._n = getattr(FlatBody, "_n", 0) + 1
+        self.flow_key = "view#%d:%s" % (FlatBody._n, raw.get("path"))
 
     def origin_key(self, bb):
         return self.origin[bb]
@@ -91,7 +93,7 @@ def default_policy(prog, stop=()):
     return pol
 
 
-def flatten(prog, body, policy=None, depth=4, max_blocks=6000, env0=None):
+def flatten(prog, body, policy=None, depth=4, max_blocks=6000, env0=None, thread_calls=False):
     policy = policy or default_policy(prog)
     locals_ = list(body.locals)
     lorigin = [(body.path, j) for j in range(len(body.locals))]
@@ -115,8 +117,15 @@ def flatten(prog, body, policy=None, depth=4, max_blocks=6000, env0=None):
                 i += 1
                 continue
             # (a synthetic call - the `next` of a desugared adaptor - is resolved by its own terminator)
-            osite = Site(ob, origin[i][1], t if blk.get("synth") else ob.blocks[origin[i][1]]["term"])
-            tgts = [(tg, how) for tg, how in prog.call_targets(osite) if how != "extern-cb"]
+            osite = Site(ob, origin[i][1], ob.blocks[origin[i][1]]["term"])
+            if blk.get("synth"):
+                # the `next` of a desugared adaptor: resolved by its own callee (its operands are locals of the view)
+                cc = t.get("callee") or {}
+                tb = prog.bodies.get(cc.get("resolved")) if cc.get("rlocal") else None
+                tgts = [(tb, "direct")] if tb is not None else []
+                osite = Site(ob, origin[i][1], dict(t, args=[]))
+            else:
+                tgts = [(tg, how) for tg, how in prog.call_targets(osite) if how != "extern-cb"]
             if len(tgts) != 1 and env and (t.get("callee") or {}).get("_np") in FN_TRAIT_CALLS:
                 # a call of a generic `F`: in this inlining context the parameter is bound to one closure
                 ga = [g for g in (t.get("callee") or {}).get("gargs", []) if isinstance(g, int)]
@@ -133,7 +142,7 @@ def flatten(prog, body, policy=None, depth=4, max_blocks=6000, env0=None):
                     inlined.add(tgt.path)
         i += 1
     if inlined:
-        _thread_results(blocks, origin, meta)
+        _thread_results(blocks, origin, meta, prog, locals_, thread_calls)
     raw = dict(body.raw)
     raw["blocks"] = blocks
     raw["locals"] = locals_
@@ -319,7 +328,7 @@ def _desugar_iter(prog, blocks, origin, meta, locals_, names, lorigin, inlined, 
     return True
 
 
-def _thread_results(blocks, origin, meta):
+def _thread_results(blocks, origin, meta, prog=None, locals_=None, through_calls=False):
     """Jump threading for Result values whose polarity is known where they are built.
 
     An inlined helper that returns `Err(..)` (or forwards one with `?`) makes the caller's `?` take the Break edge;
@@ -333,7 +342,10 @@ def _thread_results(blocks, origin, meta):
         if blk.get("cleanup"):
             continue
         src = None
+        is_bool = False
         extra = set()       # copies of the value made in the block that builds it (arguments of an inlined call)
+        refs0 = set()       # references to it made there
+        tups = {}           # (tuple local, index) that hold it
         for st in blk["stmts"]:
             if st["k"] == "assign" and not st["lhs"]["p"] and st["rv"]["k"] == "agg" and \
                     st["rv"].get("def") == "std::result::Result" and st["rv"].get("vn") in ("Ok", "Err"):
@@ -346,24 +358,58 @@ def _thread_results(blocks, origin, meta):
                 # on it: the match is decided
                 src = (st["lhs"]["l"], st["rv"]["variant"])
                 extra = set()
+                refs0 = set()
+            elif st["k"] == "assign" and not st["lhs"]["p"] and st["rv"]["k"] == "use" and "const" in st["rv"]["op"] and \
+                    isinstance(st["rv"]["op"]["const"].get("v"), (bool, int)) and prog is not None and locals_ is not None \
+                    and prog.ty_str(locals_[st["lhs"]["l"]]) == "bool":
+                # `a || b` in an inlined predicate: the arm that answers `true` outright decides the caller's `if`
+                src = (st["lhs"]["l"], 1 if st["rv"]["op"]["const"]["v"] else 0)
+                extra = set()
+                refs0 = set()
+                is_bool = True
             elif st["k"] == "assign" and not st["lhs"]["p"] and src is not None and st["lhs"]["l"] == src[0]:
                 src = None
+            elif st["k"] == "assign" and not st["lhs"]["p"] and src is not None and st["rv"]["k"] == "agg" and \
+                    st["rv"].get("ak") == "tuple":
+                # `(Kind::X,)`: the argument tuple of a closure call; `.i` of it is the literal again
+                for i_, o_ in enumerate(st["rv"]["ops"]):
+                    pl0 = o_.get("move") or o_.get("copy")
+                    if pl0 is not None and not pl0["p"] and (pl0["l"] == src[0] or pl0["l"] in extra):
+                        tups[(st["lhs"]["l"], i_)] = True
+            elif st["k"] == "assign" and not st["lhs"]["p"] and src is not None and st["rv"]["k"] == "use" and \
+                    (st["rv"]["op"].get("move") or st["rv"]["op"].get("copy")) is not None and \
+                    len((st["rv"]["op"].get("move") or st["rv"]["op"].get("copy"))["p"]) == 1 and \
+                    isinstance((st["rv"]["op"].get("move") or st["rv"]["op"].get("copy"))["p"][0], dict) and \
+                    ((st["rv"]["op"].get("move") or st["rv"]["op"].get("copy"))["l"],
+                     (st["rv"]["op"].get("move") or st["rv"]["op"].get("copy"))["p"][0].get("f")) in tups:
+                extra.add(st["lhs"]["l"])
             elif st["k"] == "assign" and not st["lhs"]["p"] and src is not None and st["rv"]["k"] == "use":
                 pl0 = st["rv"]["op"].get("move") or st["rv"]["op"].get("copy")
                 if pl0 is not None and not pl0["p"] and (pl0["l"] == src[0] or pl0["l"] in extra):
                     extra.add(st["lhs"]["l"])
+                elif pl0 is not None and not pl0["p"] and pl0["l"] in refs0:
+                    refs0.add(st["lhs"]["l"])
+            elif st["k"] == "assign" and not st["lhs"]["p"] and src is not None and st["rv"]["k"] == "ref" and \
+                    not st["rv"]["place"]["p"] and (st["rv"]["place"]["l"] == src[0] or st["rv"]["place"]["l"] in extra):
+                refs0.add(st["lhs"]["l"])       # `&literal` handed to a helper that matches on `*param`
         t = blk["term"]
         nxt = None
         if t["k"] == "call" and not t["dest"]["p"] and (t.get("callee") or {}).get("_np") == FROM_RESIDUAL or (
                 t["k"] == "call" and not t["dest"]["p"] and
                 ((t.get("callee") or {}).get("path") or "").startswith("std::ops::FromResidual::from_residual")):
             src = (t["dest"]["l"], "err")
+            if prog is not None and locals_ is not None:
+                # `?` on an Option: the residual is `None`, variant 0 of the Option the function returns
+                dty = prog.types[locals_[t["dest"]["l"]]]
+                if dty.get("k") == "adt" and dty.get("def") == "std::option::Option":
+                    src = (t["dest"]["l"], 0)
             nxt = t["t"]
         elif src is not None and t["k"] in ("goto", "drop"):
             nxt = t["t"]
         if src is None or nxt is None:
             continue
         tracked = {src[0]} | extra
+        refs = set(refs0)
         pol = src[1]
         chain = []
         decided = {}        # index in chain of a switch block -> the one target the tracked value lets it take
@@ -385,7 +431,22 @@ def _thread_results(blocks, origin, meta):
                     if pl is not None and not pl["p"] and pl["l"] in tracked:
                         tracked.add(l_)
                         continue
+                    if pl is not None and not pl["p"] and pl["l"] in refs:
+                        refs.add(l_)
+                        continue
+                    if pl is not None and pl["p"] == ["deref"] and pl["l"] in refs:
+                        tracked.add(l_)
+                        continue
+                if rv["k"] == "ref" and not rv["place"]["p"] and rv["place"]["l"] in tracked:
+                    refs.add(l_)
+                    continue
+                if rv["k"] == "ref" and rv["place"]["p"] == ["deref"] and rv["place"]["l"] in refs:
+                    refs.add(l_)        # reborrow
+                    continue
                 if rv["k"] == "discr" and not rv["place"]["p"] and rv["place"]["l"] in tracked:
+                    dvars.add(l_)
+                    continue
+                if rv["k"] == "discr" and rv["place"]["p"] == ["deref"] and rv["place"]["l"] in refs:
                     dvars.add(l_)
                     continue
                 if l_ in tracked:
@@ -410,10 +471,18 @@ def _thread_results(blocks, origin, meta):
                         chain.append(cur)
                         cur = ct["t"]
                         continue
+                if through_calls and ct.get("t") is not None and ct["dest"]["l"] not in tracked and \
+                        ct["dest"]["l"] not in refs and not any(
+                            (a.get("move") or a.get("copy")) is not None and
+                            (a.get("move") or a.get("copy"))["l"] in (tracked | refs) for a in ct["args"]):
+                    # a call that neither takes nor overwrites the literal leaves it as it is
+                    chain.append(cur)
+                    cur = ct["t"]
+                    continue
                 break
             if k == "switch":
                 pl = ct["discr"].get("move") or ct["discr"].get("copy")
-                if pl is not None and not pl["p"] and pl["l"] in dvars:
+                if pl is not None and not pl["p"] and (pl["l"] in dvars or (is_bool and pl["l"] in tracked)):
                     listed = dict((v, x) for v, x in ct["targets"])
                     want = pol if isinstance(pol, int) else (0 if pol == "ok" else 1)
                     target = listed.get(want, ct["otherwise"])
